@@ -10,6 +10,8 @@
 From Coq Require Import ZArith List Bool.
 From FT Require Import Base.Dict Model.Edit Model.EditExec Proofs.EditInv Proofs.EditWalk Proofs.EditUserEdge Proofs.EditUserEdgeCor.
 From FT Require Proofs.EditSwap.
+From FT Require Proofs.EditNodeBasic Proofs.EditBook Proofs.EditUDN Proofs.EditUAN Proofs.EditWFEdge.
+From FT Require Gen.History_gen Proofs.HistoryGen Props.C02.
 Import ListNotations.
 Open Scope Z_scope.
 
@@ -72,6 +74,64 @@ Definition fx : state :=
            [(1, 2, []); (1, 3, []); (2, 4, []); (3, 5, [])] None fx_feats
            [(1, [1]); (2, [2; 4]); (3, [3; 5]); (5, [6])] [(1, [1; 2; 3; 4; 5]); (2, [6])] 5 2 1.
 
+(* ---- UserDeleteNode: forest kept; exactly the node and its edges disappear, and the bridge edge
+        from its in-track predecessor to its in-track successor appears (needs the track ids and the
+        lookups to be right: W_trk, W_book - both counterexamples are in Proofs/EditUDNExample.v) ---- *)
+Theorem C03_delete_node : forall st n pxo top a st', W_dict st -> W_forest st -> W_trk st -> W_book st ->
+  user_delete_node st n pxo top = Ok a st' ->
+  W_dict st' /\ W_forest st' /\
+  (forall x, is_node st' x <-> is_node st x /\ x <> n) /\
+  (forall x y, edge st' x y <-> (edge st x y /\ x <> n /\ y <> n) \/ EditUDN.udn_bridge st n x y) /\
+  (forall m k, m <> n -> k <> KTrack -> k <> KLin -> attr st' m k = attr st m k) /\
+  (forall m, m <> n -> time_of st' m = time_of st m) /\
+  seg st' = EditNodeBasic.seg_after st (EditNodeBasic.del_px st n pxo) 0 /\ ft st' = ft st /\ nctr st' = nctr st.
+Proof. exact EditUDN.udn_keeps_forest. Qed.
+
+Theorem C03_delete_node_accepted_iff : forall st n pxo top, W_dict st -> W_forest st -> W_trk st -> W_book st ->
+  (exists a st', user_delete_node st n pxo top = Ok a st') <->
+  is_node st n /\ EditNodeBasic.px_ok st (EditNodeBasic.del_px st n pxo).
+Proof. exact EditUDN.udn_accepted_iff. Qed.
+
+(* ---- UserAddNode: accepted exactly when none of the six checks refuses; forest kept; the edge set is
+        the old one minus the conflicting edges (only when forcing) minus the skip edge pred->succ,
+        plus pred->n and n->succ ---- *)
+Theorem C03_add_node : forall st n a px force top act st',
+  W_dict st -> W_forest st -> W_trk st -> W_book st -> EditBook.rp_disjoint st -> EditUAN.attrs_ok a ->
+  user_add_node st n a px force top = Ok act st' ->
+  W_dict st' /\ W_forest st' /\
+  (forall x, is_node st' x <-> is_node st x \/ x = n) /\
+  time_of st' n = EditUAN.uan_time a /\ trk st' n = Some (EditUAN.uan_tid st a) /\
+  (forall x y, edge st' x y <->
+     (edge st x y /\ ~ In (x, y) (EditUAN.uan_conflict_edges st (EditUAN.uan_pred st a) (EditUAN.uan_succ st a)) /\
+      ~ (EditUAN.uan_pred st a = Some x /\ EditUAN.uan_succ st a = Some y)) \/
+     (EditUAN.uan_pred st a = Some x /\ y = n) \/ (x = n /\ EditUAN.uan_succ st a = Some y)).
+Proof. exact EditUAN.user_add_node_keeps_forest. Qed.
+
+Theorem C03_add_node_accepted_iff : forall st n a px force top,
+  W_dict st -> W_forest st -> W_trk st -> W_book st -> EditBook.rp_disjoint st -> EditUAN.attrs_ok a ->
+  (exists act st', user_add_node st n a px force top = Ok act st') <-> EditUAN.uan_refused st n a px force = None.
+Proof. exact EditUAN.user_add_node_ok_iff. Qed.
+
+(* ---- every state reachable by edge-level calls (add / delete edge with and without force, swap,
+        queries, fresh ids) from a well-formed state is well formed: induction over the call list,
+        no bound on its length.  WF includes W_forest. ---- *)
+Theorem C03_run_edge_calls : forall ops st,
+  forallb EditWFEdge.edge_fragment ops = true -> WF st -> WF (run st ops).
+Proof. exact EditWFEdge.run_edge_WF. Qed.
+
+(* ---- undo / redo: the history mechanism this property quantifies over (Tracks.undo / redo,
+        ActionHistory) is, in the model, the code translated on every run from the current
+        actions/action_history.py (Gen/History_gen.v); C02_timeline states what it guarantees ---- *)
+Theorem C03_history_is_generated : forall st a dA,
+  (let h := fst (FT.Gen.History_gen.add_new_action state action (FT.Proofs.HistoryGen.to_hist st) a st) in
+   undo_stack (hist_add st a) = FT.Gen.History_gen.undo_stack _ _ h /\ redo_stack (hist_add st a) = FT.Gen.History_gen.redo_stack _ _ h) /\
+  (let gr := FT.Gen.History_gen.undo state action FT.Proofs.HistoryGen.inv_total dA (FT.Proofs.HistoryGen.to_hist st) in
+   match undo st with
+   | Ok b s' => snd gr = b /\ undo_stack s' = FT.Gen.History_gen.undo_stack _ _ (fst gr) /\ redo_stack s' = FT.Gen.History_gen.redo_stack _ _ (fst gr)
+   | Err _ _ => True
+   end).
+Proof. exact FT.Props.C02.C02_edit_machine_uses_generated. Qed.
+
 Example C03_nonvacuous :
   (* 6 cannot be a child of 1 (third child) but 4 -> 6 is fine; 2 -> 5 is a merge: refused (forceable), forced it cuts 3 -> 5 *)
   fst (snd (step fx (OAddEdge 1 6 false))) = 10 /\
@@ -89,3 +149,9 @@ Print Assumptions C03_add_edge_refusals.
 Print Assumptions C03_update_track_ids.
 Print Assumptions C03_swap.
 Print Assumptions C03_swap_accepted_iff.
+Print Assumptions C03_delete_node.
+Print Assumptions C03_delete_node_accepted_iff.
+Print Assumptions C03_add_node.
+Print Assumptions C03_add_node_accepted_iff.
+Print Assumptions C03_run_edge_calls.
+Print Assumptions C03_history_is_generated.
